@@ -118,8 +118,10 @@ def line_reaction(draw, fmt, elements=None, extra_markers=()):
     return lr
 
 
-KROME_TMIN = [("NONE", -1.0), ("N", -1.0), ("10", 10.0), ("1.d2", 100.0), (">1d3", 1000.0), (".GE.5.5d3", 5500.0), ("2.73", 2.73), (".GT.30", 30.0), ("", -1.0), (".5d2", 50.0), (">.12d3", 120.0)]
-KROME_TMAX = [("NONE", -1.0), ("N", -1.0), ("300", 300.0), ("1.d4", 10000.0), ("<1d3", 1000.0), (".LE.5.5d3", 5500.0), (".LT.8000", 8000.0), ("1e8", 1e8), ("", -1.0), (".8d4", 8000.0), ("<.55e4", 5500.0)]
+KROME_TMIN = [("NONE", -1.0), ("N", -1.0), ("10", 10.0), ("1.d2", 100.0), (">1d3", 1000.0), (".GE.5.5d3", 5500.0), ("2.73", 2.73), (".GT.30", 30.0), ("", -1.0), (".5d2", 50.0), (">.12d3", 120.0),
+              ("1.0d+1", 10.0), ("5.00e+01", 50.0), (">1.0e+2", 100.0)]  # explicitly signed exponents (what ES/D edit descriptors and %e print)
+KROME_TMAX = [("NONE", -1.0), ("N", -1.0), ("300", 300.0), ("1.d4", 10000.0), ("<1d3", 1000.0), (".LE.5.5d3", 5500.0), (".LT.8000", 8000.0), ("1e8", 1e8), ("", -1.0), (".8d4", 8000.0), ("<.55e4", 5500.0),
+              ("1.0d+3", 1000.0), ("2.5E+02", 250.0), ("<1.5d+03", 1500.0)]
 KROME_RATES = ["1.0d-10", "4.67e-10*(T32)**(-5.000e-01)*exp(-3.040e+04*invT)", "3.5d-12*exp(-1.d0*invT)", "1.2d-17*sqrt(Tgas)", "auto"]
 
 
